@@ -129,6 +129,13 @@ def install(reg):
     reg.const_overrides["xandikos.web.to_thread"] = lambda it: VNative(to_thread, "to_thread")
     from ..callables import VConstDict
 
+    def propstatus(it, a, k):
+        names = ["statuscode", "responsedescription", "prop"]
+        items = list(a) + [k[n] for n in names[len(a):]]
+        return VTuple(items, names)
+
+    reg.const_overrides["xandikos.webdav.PropStatus"] = lambda it: VNative(propstatus, "PropStatus")
+
     # translation table of the ASCII case map: only ever passed to str.translate (modelled as UF)
     reg.const_overrides["xandikos.collation._ASCII_CASEMAP"] = lambda it: it.new_container(VConstDict({}))
     E["errno.ENOSPC"] = VInt(28)
